@@ -7,6 +7,7 @@ package shmipc
 import (
 	"bytes"
 	"fmt"
+	"os"
 	"testing"
 
 	"pgregory.net/rapid"
@@ -35,6 +36,31 @@ func genC07Sim(t *rapid.T) streamsCase {
 			st.C.Prog = append(st.C.Prog, sOp{K: "close"})
 		}
 		st.S.Prog = []sOp{{K: "readall"}}
+		if rapid.IntRange(0, 3).Draw(t, "cbreader") == 0 {
+			// callback-mode reader. Known finding cb-remote-close-before-data: OnRemoteClose can precede the last OnData;
+			// excluded by construction: such a stream is closed by the writer only after the reader acknowledged everything
+			st.S.Prog = nil
+			st.S.CB = []cbPolicy{{Take: rapid.SampledFrom([]int{0, 1, 7}).Draw(t, "take")}}
+			total := 0
+			closes := false
+			var prog []sOp
+			for _, op := range st.C.Prog {
+				if op.K == "flush" {
+					total += op.N
+					prog = append(prog, op)
+				} else if op.K == "close" {
+					closes = true
+				}
+			}
+			if closes {
+				if os.Getenv("VERIF_PROBE_CBORDER") == "" {
+					st.S.AckAt = total
+					prog = append(prog, sOp{K: "readn", N: 1})
+				}
+				prog = append(prog, sOp{K: "close"})
+			}
+			st.C.Prog = prog
+		}
 		c.Streams = append(c.Streams, st)
 		nthreads += 2
 	}
@@ -72,6 +98,27 @@ func judgeC07Sim(c streamsCase, h *streamsHist, r *runCtx) {
 				r.Violf("%s\nlast scheduling points: %v", msg, h.sc.Tail(30))
 			}
 			return
+		}
+		if len(c.Streams[i].S.CB) > 0 {
+			// callback-mode reader: "told the stream ended" = OnRemoteClose
+			if se.remoteCloseBeforeBytes >= 0 && se.remoteCloseBeforeBytes != len(want) {
+				r.ViolSig("cb-remote-close-before-data", "stream %d (callback mode): OnRemoteClose fired when only %d of the %d bytes flushed before the peer's Close had been offered to OnData\nlast scheduling points: %v",
+					h.ids[i], se.remoteCloseBeforeBytes, len(want), h.sc.Tail(30))
+				return
+			}
+			if len(got) != len(want) && se.stream != nil {
+				r.Violf("stream %d (callback mode): %d bytes flushed, only %d offered to OnData at quiescence; %s\nlast scheduling points: %v", h.ids[i], len(want), len(got), h.worldState(), h.sc.Tail(30))
+				return
+			}
+			if ce.closeCalled && ce.progDone[0] && se.stream != nil && se.onRemote != 1 {
+				r.Violf("stream %d (callback mode): writer closed, nothing in flight, OnRemoteClose fired %d times; %s", h.ids[i], se.onRemote, h.worldState())
+				return
+			}
+			r.Label("callback-reader")
+			if ce.closeCalled {
+				inflight++
+			}
+			continue
 		}
 		if se.readDone {
 			if len(got) != len(want) {
